@@ -14,6 +14,8 @@ Deciding step: complete enumeration of declared finite spaces on the real
   compared with fresh objects (history independence);
 * "twin tracks": the same waypoints with both ``allow_overstep`` settings alive in one
   process, either setting created first; every object must obey its own setting;
+* input reuse: a Location / Position / the airport Position held by a Mission is used, edited in
+  place or via copy / deepcopy / dataclasses.replace, and used again (both orders, either end);
 * every ordered pair of harness airports (lattice + real ones + an unknown code) x every
   way of obtaining a ``Mission`` (constructor, ``from_toml``, ``from_query_result`` with a
   hand-written QueryResult whose stated schedule distance is exact / +-5 % / 0 / None) for
@@ -106,6 +108,9 @@ STEP_MULTI_B = {
     'quick': ['0', '1m', '2m', 'S1/2', 'S2', 'L/2', '-1m'],
     'thorough': ['0', '1m', '2m', 'S1/2', 'S1', 'S2', 'L/2', 'L', '-1m'],
 }
+
+REUSE_OBJ = ['location', 'position', 'mission-position']
+REUSE_HOW = ['in-place', 'copy', 'deepcopy', 'replace']
 
 SEQ_STEPS_2 = [(a, b) for a in ('0', 'L/2', 'L') for b in ('0', 'L/4', 'L/2', 'L+1m')]
 SEQ_STEPS_M = [(a, b) for a in ('0', 'M1', 'W1', 'M2') for b in ('0', '1m', 'S1/2', 'S2', 'L')]
@@ -268,6 +273,14 @@ def sublattices(tier, seed):
                  'objects': ['first setting', 'other setting', 'first setting again'],
                  'queries': 'every location distance and the fixed step table of the track type, on every object'},
         'cases': [{'k': 'twin', 'wp': w, 'first': f} for w in seq_tracks for f in (0, 1)],
+    })  # fmt: skip
+    subs.append({
+        'name': 'input reuse: location / position / mission airport position used, edited (in place or via a copy), used again',
+        'axes': {'first_point': PALETTE, 'other_point': PALETTE, 'edited_to': PALETTE, 'object': REUSE_OBJ, 'edit': REUSE_HOW,
+                 'edited_end': ['start', 'end'], 'order': ['use p, edit to r, use', 'use r, edit to p, use']},
+        'cases': [{'k': 'reuse', 'p': a, 'q': b, 'r': c, 'obj': o, 'how': h, 'end': e, 'order': n}
+                  for a in PALETTE for b in PALETTE for c in PALETTE for o in REUSE_OBJ for h in REUSE_HOW
+                  for e in ('start', 'end') for n in (0, 1)],
     })  # fmt: skip
     codes = _mission_codes(tier)
     subs.append({
@@ -777,6 +790,112 @@ def _run_dbrow(case):
     return {'outcome': oc.replace('mission:', 'dbrow:'), 'nontrivial': True, 'violations': out}
 
 
+def _code_of(pt):
+    for c, v in AIRPORTS.items():
+        if c.startswith('Q') and tuple(map(float, v)) == tuple(map(float, pt)):
+            return c
+    raise HarnessError(f'palette point {pt} is not a lattice airport')
+
+
+def _use_track(wp, a_loc, b_loc, what, out):
+    """Build a great-circle track from the two Location objects and check it against the reference
+    for the coordinates `wp` they are supposed to hold, and against a track from fresh Locations."""
+    GT, Loc = _STATE['GroundTrack'], _STATE['Location']
+    n0 = len(out)
+    try:
+        gt = GT.great_circle(a_loc, b_loc)
+        fresh = GT.great_circle(Loc(longitude=wp[0][0], latitude=wp[0][1]), Loc(longitude=wp[1][0], latitude=wp[1][1]))
+    except Exception as ex:  # noqa: BLE001
+        out.append(V('internal-error', f'{what}: constructing the track: {type(ex).__name__}: {str(ex)[:200]}'))
+        return None
+    sub = []
+    if _track_checks({'wp': wp}, gt, sub) is not None:
+        for d in ('0', 'L/2', 'L'):
+            sub += _run_loc({'k': 'loc', 'wp': wp, 'ov': 0, 'd': d}, gt)['violations']
+            a, b = _call(gt.location, _symbols([0.0, gt.total_distance])[d]), _call(fresh.location, _symbols([0.0, fresh.total_distance])[d])
+            if not _same_answer(a, b):
+                sub.append(V('reuse-ne-fresh', f'location({d}) gives {a} but {b} on a track built from freshly constructed locations {wp}'))
+    for v in sub[:2]:
+        out.append(dict(v, kind='reuse-ne-fresh' if v['kind'] != 'internal-error' else v['kind'], detail=(f'{what}: [{v["kind"]}] ' + v['detail'])[:1500]))
+    return float(gt.total_distance) if len(out) == n0 else None
+
+
+def _run_reuse(case):
+    """An input object (Location / Position / the airport Position held by a Mission) is used, then
+    edited in place -- or copied and the copy edited --, then used again for a *new* track. Every use
+    must give what freshly constructed objects with the same current values give. Only objects the
+    unchanged code leaves editable are edited: plain dataclasses; a Mission's own cached distance is
+    read only after the edit."""
+    import copy
+    import dataclasses
+
+    from AEIC.types import Position
+
+    Loc = _STATE['Location']
+    out = []
+    p, q, r = [list(map(float, case[k])) for k in ('p', 'q', 'r')]
+    if case['order']:
+        p, r = r, p
+    obj, how, end = case['obj'], case['how'], case['end']
+    before = [p, q] if end == 'start' else [q, p]
+    after = [r, q] if end == 'start' else [q, r]
+    ei = 0 if end == 'start' else 1
+    tag = f'{obj} {how} edit of the {end} point {p}->{r} (other point {q})'
+    try:
+        m = None
+        if obj == 'location':
+            holders = [Loc(longitude=x[0], latitude=x[1]) for x in before]
+            loc = lambda h: h  # noqa: E731
+        elif obj == 'position':
+            holders = [Position(longitude=x[0], latitude=x[1], altitude=10.0) for x in before]
+            loc = lambda h: h.location  # noqa: E731
+        else:
+            m = _STATE['Mission'](origin=_code_of(before[0]), destination=_code_of(before[1]), departure=_STATE['t0'],
+                                  arrival=_STATE['t0'], load_factor=1.0, aircraft_type='B738')  # fmt: skip
+            holders = [m.origin_position, m.destination_position]
+            loc = lambda h: h.location  # noqa: E731
+        # 1st use
+        _use_track(before, loc(holders[0]), loc(holders[1]), f'{tag}: first use', out)
+        if out:
+            return {'outcome': 'reuse:first-use-wrong', 'nontrivial': True, 'violations': out}
+        # edit
+        orig = holders[ei]
+        if how == 'in-place':
+            tgt = orig
+        elif how == 'copy':
+            tgt = copy.copy(orig)
+        elif how == 'deepcopy':
+            tgt = copy.deepcopy(orig)
+        else:
+            tgt = dataclasses.replace(orig, longitude=r[0], latitude=r[1])
+        tgt.longitude, tgt.latitude = r[0], r[1]
+        edited = list(holders)
+        edited[ei] = tgt
+        # 2nd use: the edited object together with the untouched one
+        L2 = _use_track(after, loc(edited[0]), loc(edited[1]), f'{tag}: use after the edit', out)
+        if how != 'in-place':
+            # the original must be unaffected by editing its copy
+            _use_track(before, loc(holders[0]), loc(holders[1]), f'{tag}: original used again after its copy was edited', out)
+        if m is not None and L2 is not None:
+            # the mission holds the edited position only for an in-place edit
+            want = after if how == 'in-place' else before
+            L_ref = G.dist(want[0][0], want[0][1], want[1][0], want[1][1])
+            try:
+                g = float(m.gc_distance)
+                tr = float(_STATE['GroundTrack'].great_circle(m.origin_position.location, m.destination_position.location).total_distance)
+            except Exception as ex:  # noqa: BLE001
+                out.append(V('internal-error', f'{tag}: {type(ex).__name__}: {str(ex)[:200]}'))
+            else:
+                if not (math.isfinite(g) and abs(g - tr) <= G.LEN_TOL and abs(g - L_ref) <= G.LEN_TOL):
+                    out.append(V('mission-distance', f'{tag}: gc_distance (first read after the edit) = {g!r}, ground track between the '
+                                 f"mission's airport positions = {tr!r}, geodesic for the current coordinates {want} = {L_ref!r}"))  # fmt: skip
+    except HarnessError:
+        raise
+    except Exception as ex:  # noqa: BLE001
+        out.append(V('internal-error', f'{tag}: {type(ex).__name__}: {str(ex)[:200]}'))
+    return {'outcome': f'reuse:{obj}:{how}' if not out else 'reuse:inconsistent', 'nontrivial': True, 'violations': out}
+
+
 def _run_twin(case):
     """Several tracks over the same waypoints that differ only in `allow_overstep` are alive at the
     same time; each must behave according to its *own* setting whichever was created first."""
@@ -804,7 +923,7 @@ def _run_twin(case):
     return {'outcome': 'twin:consistent' if not out else 'twin:inconsistent', 'nontrivial': npts > 0, 'violations': out}
 
 
-_RUN = {'loc': _run_loc, 'step': _run_step, 'seq': _run_seq, 'twin': _run_twin, 'mission': _run_mission, 'dbrow': _run_dbrow}
+_RUN = {'loc': _run_loc, 'step': _run_step, 'seq': _run_seq, 'twin': _run_twin, 'mission': _run_mission, 'dbrow': _run_dbrow, 'reuse': _run_reuse}
 
 
 def run_case(case):
@@ -819,7 +938,7 @@ def observe(case):
     k = case['k']
     if k == 'mission':
         return repr(_gc(case['o'], case['d'], case.get('via', 'direct'))[:2])
-    if k in ('seq', 'twin', 'dbrow'):
+    if k in ('seq', 'twin', 'dbrow', 'reuse'):
         return None
     gt = _build(case)
     sym = _symbols([float(gt.waypoint_distance(i)) for i in range(len(gt))])
